@@ -52,6 +52,11 @@ def gen_case(streams, tier):
     init = gen.gen_init(g, script, allow_default=not (kind == 'compiled' and has_mem))
     f = streams['faults']
     faults = world.gen_reject_faults(f, script, ncyc, rate=0.7)
+    dv = init.get('default', 0)
+    narrow = [w['n'] for w in script['wires'] if w['k'] == 'I' and dv >= (1 << w['w'])]
+    if narrow:
+        # the never-validated start value of an input wire is default_value: offer exactly it
+        faults.append({'kind': 'reject_step', 'at': 0, 'wire': f.choice(narrow), 'value': dv})
     one_bit = [w['n'] for w in script['wires'] if w['w'] == 1 and w['k'] in 'WRI']
     assertion = None
     assertion2 = None
